@@ -31,7 +31,7 @@ PAYLOADS = {
 }
 
 
-def method(fn, names, on, payload="raw", data=None):
+def method(fn, names, on, payload="raw", data=None, data_ty=None):
     """data: None | '' | 'opt' | 'raw' | 'raw, opt' | 'instantiate' | 'instantiate, opt' """
     hs = f", handlers=[{', '.join(names)}]" if names else ""
     lead = ""
@@ -40,7 +40,7 @@ def method(fn, names, on, payload="raw", data=None):
             attr = "#[sv::data]" if data == "" else f"#[sv::data({data})]"
             ty = {"": "Data", "opt": "Option<Data>", "raw": "Binary", "raw, opt": "Option<Binary>",
                   "instantiate": "sylvia::cw_utils::MsgInstantiateContractResponse", "instantiate, opt": "Option<sylvia::cw_utils::MsgInstantiateContractResponse>"}[data]
-            lead = f"{attr} data: {ty}, "
+            lead = f"{attr} data: {data_ty or ty}, "
     elif on == "error":
         lead = "error: String, "
     else:
@@ -131,6 +131,10 @@ def main():
     mods.append(module("name_shapes", [S(fn="a1", names=("step2_go",)), E(fn="a2", names=("a_b_c",)), Al(fn="a3", names=("x1y",))]))
     for dm, nm in (("", "typed"), ("opt", "opt"), ("raw", "raw"), ("raw, opt", "raw_opt"), ("instantiate", "inst"), ("instantiate, opt", "inst_opt")):
         mods.append(module(f"data_{nm}", [S(data=dm, payload="one")]))
+    # the mode is what the ATTRIBUTE says, whatever the parameter's type looks like: mandatory typed data whose type is an Option,
+    # optional typed data of a non-Option-looking alias is not expressible; raw mandatory stays Binary
+    mods.append(module("data_typed_option_type", [method("on_done", ["done"], "success", payload="one", data="", data_ty="Option<Data>")]))
+    mods.append(module("data_typed_option_type_se", [method("on_done", ["done"], "success", payload="one", data="", data_ty="Option<Data>"), method("on_fail", ["done"], "error", payload="one")]))
     mods.append(module("generic_se", [S(data=""), E()], generic=True))
     # payload parameters named like SubMsg fields (gas_limit, msg): the builder on an existing SubMsg must still encode the PARAMETERS
     mods.append(module("payload_named_like_submsg_fields", [Al(payload="fieldnames")]))
